@@ -14,6 +14,15 @@ def is_env_method(t, name):
     return is_t(t, "attr") and t[2] == name
 
 
+def env_read_over(t, envs=None):
+    """the iterable X when t is `env.read` mapped over X - safe_map(env.read, X), map(env.read, X) or [env.read(v) for v in X] - else None"""
+    if (is_call(t, "safe_map") or is_call(t, "map")) and len(t[2]) == 2 and is_env_method(t[2][0], "read") and (envs is None or t[2][0][1] in envs):
+        return t[2][1]
+    if is_t(t, "fam") and is_mcall(t[2], "read") and (envs is None or t[2][1][1] in envs) and t[2][2] == (("elem", t[1]),):
+        return t[1]
+    return None
+
+
 def phi_leaves(t):
     if is_t(t, "phi"):
         return [(c + [(t[1], True)], x) for c, x in phi_leaves(t[2])] + [(c + [(t[1], False)], x) for c, x in phi_leaves(t[3])]
@@ -85,7 +94,7 @@ def check_loop(chk, inst, res, where, *, jaxpr=P("jaxpr"), eqns=None, const_wrap
         okargs = okp and star is not None and is_t(star[1], "bin") and star[1][1] == "+" and star[1][2] == mk_proj(gbp, 0)
         inv = star[1][3] if okargs else None
         reads = [x for x in subterms(inv)] if inv is not None else []
-        okread = inv is not None and any(is_call(x, "safe_map") and len(x[2]) == 2 and is_env_method(x[2][0], "read") and x[2][0][1] in envs and x[2][1] == ("attr", E, "invars") for x in reads)
+        okread = inv is not None and any(env_read_over(x, envs) == ("attr", E, "invars") for x in reads)
         okkw = dict(leaf[3]).get("**") == mk_proj(gbp, 1)
         chk.require(okargs and okread and okkw, rule, f"{inst}/eqn-{kind}", f"{kind}: this equation's primitive on values read from this equation's invars with its params",
                     derived=show(leaf)[:260], expected="(subfuns + [env.read(v) for v in eqn.invars]) and **params, both from eqn.primitive.get_bind_params(eqn.params)", where=where)
@@ -95,9 +104,9 @@ def check_loop(chk, inst, res, where, *, jaxpr=P("jaxpr"), eqns=None, const_wrap
     if not final_read:
         return dict(outvals=outvals, leaves=leaves)
     ret = res.ret
-    is_read = lambda t: is_call(t, "safe_map") and is_env_method(t[2][0], "read") and t[2][0][1] in envs and len(envs) == 1 and t[2][1] == A("outvars")
+    is_read = lambda t: len(envs) == 1 and env_read_over(t, envs) == A("outvars")
     # the outputs are the read itself, or an elementwise post-processing of it (a family over the read); `out_wrap(elem, body)` judges the latter
-    read = ret[1] if is_t(ret, "fam") and is_read(ret[1]) else ret
+    read = ret[1] if is_t(ret, "fam") and not is_read(ret) and is_read(ret[1]) else ret
     okret = is_read(read)
     chk.require(okret, rule, inst + "/outputs", "outputs read after the loop", derived=show(ret)[:160], expected="safe_map(env.read, jaxpr.outvars)", where=where)
     if okret and out_wrap is not None:
